@@ -2,6 +2,37 @@ module obiverif
 
 go 1.23.1
 
-require git.metabarcoding.org/obitools/obitools4/obitools4 v0.0.0
+require (
+	git.metabarcoding.org/obitools/obitools4/obitools4 v0.0.0
+	github.com/dsnet/compress v0.0.1
+	github.com/klauspost/compress v1.17.2
+	github.com/klauspost/pgzip v1.2.6
+	github.com/sirupsen/logrus v1.9.3
+	github.com/ulikunitz/xz v0.5.11
+)
+
+require (
+	github.com/DavidGamba/go-getoptions v0.28.0 // indirect
+	github.com/PaesslerAG/gval v1.2.2 // indirect
+	github.com/barkimedes/go-deepcopy v0.0.0-20220514131651-17c30cfc62df // indirect
+	github.com/gabriel-vasile/mimetype v1.4.3 // indirect
+	github.com/goccy/go-json v0.10.3 // indirect
+	github.com/goombaio/orderedmap v0.0.0-20180924084748-ba921b7e2419 // indirect
+	github.com/goombaio/orderedset v0.0.0-20180925151225-8e67b20a9b77 // indirect
+	github.com/mattn/go-runewidth v0.0.15 // indirect
+	github.com/mitchellh/colorstring v0.0.0-20190213212951-d06e56a500db // indirect
+	github.com/pbnjay/memory v0.0.0-20210728143218-7b4eea64cf58 // indirect
+	github.com/rivo/uniseg v0.4.4 // indirect
+	github.com/rrethy/ahocorasick v1.0.0 // indirect
+	github.com/schollz/progressbar/v3 v3.13.1 // indirect
+	github.com/shopspring/decimal v1.3.1 // indirect
+	github.com/tevino/abool/v2 v2.1.0 // indirect
+	golang.org/x/exp v0.0.0-20231006140011-7918f672742d // indirect
+	golang.org/x/net v0.17.0 // indirect
+	golang.org/x/sys v0.17.0 // indirect
+	golang.org/x/term v0.13.0 // indirect
+	gonum.org/v1/gonum v0.14.0 // indirect
+	scientificgo.org/special v0.0.0 // indirect
+)
 
 replace git.metabarcoding.org/obitools/obitools4/obitools4 => /repo
